@@ -485,6 +485,14 @@ func c17One(ctx *core.Ctx, i int, tm gen.Tagged) {
 func c17Models(thorough bool) []gen.Tagged {
 	out := c10Extra()
 	out = append(out, gen.TTUDefectModels()...)
+	// one operator reaching a relation by a rewrite / TTU line and by a direct line, in both operand orders (the second one only
+	// comes through JSON or protobuf); two TTUs under one operator
+	out = append(out, gen.SameTargetModels()...)
+	for i, tm := range gen.TTUPairModels() {
+		if thorough || i%6 == 0 {
+			out = append(out, tm)
+		}
+	}
 	sp := gen.NewGraphSpace(false)
 	step := 81
 	if thorough {
